@@ -505,4 +505,381 @@ theorem emit_vm_wf (ti : TreeInfo) (root : GoNode) (h : treeWf ti root = true) :
   rw [emit_eq_progOf]
   exact codeFromTree_vm_wf (mainCfg ti) (capsize ti) root hok hcaps _ _ _ _ _ (by simp) (Nat.le_refl _)
 
+/-! ### the potential of an emitted program: `Σ wsOf` over code positions = `Σ weight` over instructions -/
+
+/-- the weight `VM.wsOf` gives code position `pc` -/
+def posWeight (p : Prog) (pc : Nat) : Nat :=
+  if ((p.boundaries).getD []).contains pc then
+    match VM.fetch p pc with
+    | .ok w => Capacity.weight w.op
+    | .error _ => 0
+  else 0
+
+theorem wsOf_eq (p : Prog) : VM.wsOf p = (List.range p.codes.size).map (posWeight p) := rfl
+
+theorem sum_map_zero {l : List Nat} {f : Nat → Nat} (h : ∀ x ∈ l, f x = 0) : (l.map f).sum = 0 := by
+  induction l with
+  | nil => rfl
+  | cons a r ih =>
+    simp only [List.map_cons, List.sum_cons, h a (by simp), Nat.zero_add]
+    exact ih (fun x hx => h x (by simp [hx]))
+
+theorem posWeight_start (pre : Code) (i : Instr) (post : Code) (s n t cs cp r)
+    (ha : ∀ j ∈ pre ++ i :: post, j.arityOk = true) (hw : i.op < 1024) :
+    posWeight (progOf (pre ++ i :: post) s n t cs cp r) (codeLen pre) = Capacity.weight i.opcode := by
+  unfold posWeight
+  rw [boundaries_progOf _ s n t cs cp r ha, fetch_progOf pre i post s n t cs cp r hw]
+  have hmem : codeLen pre ∈ istarts 0 (pre ++ i :: post) := by
+    rw [istarts_append]; simp [istarts]
+  have : (istarts 0 (pre ++ i :: post)).contains (codeLen pre) = true := by simpa using hmem
+  simp only [Option.getD_some, this, if_true]
+  rfl
+
+theorem posWeight_inside (pre : Code) (i : Instr) (post : Code) (s n t cs cp r)
+    (ha : ∀ j ∈ pre ++ i :: post, j.arityOk = true) (pc : Nat) (h1 : codeLen pre < pc)
+    (h2 : pc < codeLen pre + (1 + i.args.length)) :
+    posWeight (progOf (pre ++ i :: post) s n t cs cp r) pc = 0 := by
+  unfold posWeight
+  rw [boundaries_progOf _ s n t cs cp r ha]
+  have hmem : pc ∉ istarts 0 (pre ++ i :: post) := by
+    rw [istarts_append]
+    simp only [Nat.zero_add, istarts, List.mem_append, List.mem_cons, not_or]
+    refine ⟨?_, ?_, ?_⟩
+    · intro h; have := mem_istarts_bounds pre 0 pc h; omega
+    · omega
+    · intro h; have := mem_istarts_bounds post _ pc h; omega
+  have : (istarts 0 (pre ++ i :: post)).contains pc = false := by simpa using hmem
+  simp only [Option.getD_some, this, Bool.false_eq_true, if_false]
+
+theorem sum_range'_progOf (c : Code) (s n t cs cp r) (ha : ∀ j ∈ c, j.arityOk = true) (hw : AllW c) :
+    ∀ (post pre : Code), c = pre ++ post →
+      ((List.range' (codeLen pre) (codeLen post)).map (posWeight (progOf c s n t cs cp r))).sum =
+        (Capacity.weights (post.map Instr.opcode)).sum
+  | [], pre, _ => by simp [Capacity.weights]
+  | i :: post, pre, e => by
+    have ih := sum_range'_progOf c s n t cs cp r ha hw post (pre ++ [i]) (by simp [e])
+    have hpre : codeLen (pre ++ [i]) = codeLen pre + (1 + i.args.length) := by simp [codeLen_append]
+    rw [hpre] at ih
+    have hiw : i.op < 1024 := by
+      have := hw i (by simp [e])
+      simp only [opWordOk, Bool.and_eq_true, decide_eq_true_eq] at this
+      exact this.1.1.1
+    have hsplit : List.range' (codeLen pre) (codeLen (i :: post)) =
+        codeLen pre :: (List.range' (codeLen pre + 1) i.args.length ++
+          List.range' (codeLen pre + (1 + i.args.length)) (codeLen post)) := by
+      rw [codeLen_cons, show 1 + i.args.length + codeLen post = (i.args.length + codeLen post) + 1 by omega,
+        List.range'_succ, ← List.range'_append_1]
+      rw [show codeLen pre + 1 + i.args.length = codeLen pre + (1 + i.args.length) by omega]
+    rw [hsplit]
+    simp only [List.map_cons, List.map_append, List.sum_cons, List.sum_append, ih, Capacity.weights]
+    subst e
+    rw [posWeight_start pre i post s n t cs cp r ha hiw]
+    rw [sum_map_zero (l := List.range' (codeLen pre + 1) i.args.length)]
+    · omega
+    · intro pc hpc
+      rw [List.mem_range'_1] at hpc
+      exact posWeight_inside pre i post s n t cs cp r ha pc (by omega) (by omega)
+
+theorem wsOf_sum_progOf (c : Code) (s n t cs cp r) (ha : ∀ j ∈ c, j.arityOk = true) (hw : AllW c) :
+    (VM.wsOf (progOf c s n t cs cp r)).sum = (Capacity.weights (c.map Instr.opcode)).sum := by
+  rw [wsOf_eq, List.range_eq_range']
+  have hsz : (progOf c s n t cs cp r).codes.size = codeLen c := by simp [progOf, flatten_length]
+  rw [hsz]
+  have := sum_range'_progOf c s n t cs cp r ha hw c [] rfl
+  simpa using this
+
+/-- `potOk` of a program given as an instruction list: from the bound `Σ weight ≤ 4·(number of backtracking
+    instructions)` (`Props.C13.potential_le_need`) and a `TrackCount` at least that number -/
+theorem potOk_progOf (c : Code) (s n t cs cp r) (ha : ∀ j ∈ c, j.arityOk = true) (hw : AllW c)
+    (hpot : Capacity.phi (Capacity.weights (c.map Instr.opcode)) 0 ≤ Capacity.trackCount (c.map Instr.opcode) * 4)
+    (ht : trackCount c ≤ t) : VM.potOk (progOf c s n t cs cp r) = true := by
+  unfold VM.potOk
+  rw [Lemmas.Capacity.phi_zero, wsOf_sum_progOf c s n t cs cp r ha hw]
+  rw [Lemmas.Capacity.phi_zero, trackCount_map] at hpot
+  simp only [decide_eq_true_eq]
+  show _ ≤ 4 * t
+  omega
+
+/-- the statement of `Props.C13.potential_le_need` (proved there from the regenerated fingerprint table) -/
+def PotBound : Prop := ∀ prog : List Nat,
+  Capacity.count opNullmark prog ≤ Capacity.count opGoto prog →
+    Capacity.phi (Capacity.weights prog) 0 ≤ Capacity.trackCount prog * 4
+
+theorem codeFromTree_potOk (hP : PotBound) (cfg : Cfg) (cs : Nat) (root : GoNode) (hok : root.ok = true)
+    (hcaps : capsOk cfg cs root = true) (s : Array (List Nat)) (n t : Nat) (cp r)
+    (ht : trackCount (codeFromTree cfg root).1 ≤ t) :
+    VM.potOk (progOf (codeFromTree cfg root).1 s n t cs cp r) = true := by
+  have hl := codeFromTree_local cfg cs root hok hcaps
+  have ha : ∀ i ∈ (codeFromTree cfg root).1, i.arityOk = true := by
+    intro i hi
+    have := hl i hi
+    simp only [Instr.localOk, Bool.and_eq_true] at this
+    exact this.1.1.1.1
+  exact potOk_progOf _ s n t cs cp r ha (codeFromTree_word cfg root hok)
+    (hP _ (codeFromTree_pairing cfg root hok)) ht
+
+theorem emit_potOk (hP : PotBound) (ti : TreeInfo) (root : GoNode) (h : treeWf ti root = true) :
+    VM.potOk (emit ti root) = true := by
+  simp only [treeWf, Bool.and_eq_true] at h
+  obtain ⟨⟨hok, hcaps⟩, _⟩ := h
+  rw [emit_eq_progOf]
+  exact codeFromTree_potOk hP (mainCfg ti) (capsize ti) root hok hcaps _ _ _ _ _ (Nat.le_refl _)
+
+/-! ### the bool-only program -/
+
+mutual
+/-- the tables a fragment builds do not depend on the writer's configuration or on the offset -/
+theorem emitNode_tables (cfg cfg' : Cfg) : ∀ (n : GoNode) (a a' : Nat) (tb : Tables),
+    (emitNode cfg a tb n).2 = (emitNode cfg' a' tb n).2
+  | .empty, a, a', tb => by simp [emitNode]
+  | .bare t, a, a', tb => by simp [emitNode]
+  | .char t rtl ci ch, a, a', tb => by simp [emitNode]
+  | .set rtl ci s, a, a', tb => by simp [emitNode]
+  | .multi rtl ci s, a, a', tb => by simp [emitNode]
+  | .ref rtl ci m, a, a', tb => by simp [emitNode]
+  | .charloop t rtl ci ch m n, a, a', tb => by simp [emitNode]
+  | .setloop t rtl ci s m n, a, a', tb => by simp [emitNode]
+  | .concat cs, a, a', tb => by simp only [emitNode]; exact emitList_tables cfg cfg' cs a a' tb
+  | .alt cs, a, a', tb => by simp only [emitNode]; exact emitAlt_tables cfg cfg' cs a a' _ _ tb
+  | .loop lzy m n c, a, a', tb => by simp only [emitNode]; exact emitNode_tables cfg cfg' c _ _ tb
+  | .capture m n c, a, a', tb => by
+    simp only [emitNode]
+    split <;> split <;> exact emitNode_tables cfg cfg' c _ _ tb
+  | .group c, a, a', tb => by simp only [emitNode]; exact emitNode_tables cfg cfg' c _ _ tb
+  | .poslook c, a, a', tb => by simp only [emitNode]; exact emitNode_tables cfg cfg' c _ _ tb
+  | .neglook c, a, a', tb => by simp only [emitNode]; exact emitNode_tables cfg cfg' c _ _ tb
+  | .atomic c, a, a', tb => by simp only [emitNode]; exact emitNode_tables cfg cfg' c _ _ tb
+  | .backrefcond1 m y, a, a', tb => by simp only [emitNode]; exact emitNode_tables cfg cfg' y _ _ tb
+  | .backrefcond2 m y n, a, a', tb => by
+    simp only [emitNode]
+    rw [emitNode_tables cfg cfg' y (a + 6) (a' + 6) tb]
+    exact emitNode_tables cfg cfg' n _ _ _
+  | .exprcond2 c y, a, a', tb => by
+    simp only [emitNode]
+    rw [emitNode_tables cfg cfg' c (a + 4) (a' + 4) tb]
+    exact emitNode_tables cfg cfg' y _ _ _
+  | .exprcond3 c y n, a, a', tb => by
+    simp only [emitNode]
+    rw [emitNode_tables cfg cfg' c (a + 4) (a' + 4) tb]
+    rw [emitNode_tables cfg cfg' y (a + 4 + size cfg c + 2) (a' + 4 + size cfg' c + 2) _]
+    exact emitNode_tables cfg cfg' n _ _ _
+  | .other t, a, a', tb => by simp [emitNode]
+theorem emitList_tables (cfg cfg' : Cfg) : ∀ (l : List GoNode) (a a' : Nat) (tb : Tables),
+    (emitList cfg a tb l).2 = (emitList cfg' a' tb l).2
+  | [], a, a', tb => by simp [emitList]
+  | c :: l, a, a', tb => by
+    simp only [emitList]
+    rw [emitNode_tables cfg cfg' c a a' tb]
+    exact emitList_tables cfg cfg' l _ _ _
+theorem emitAlt_tables (cfg cfg' : Cfg) : ∀ (l : List GoNode) (a a' fin fin' : Nat) (tb : Tables),
+    (emitAlt cfg a fin tb l).2 = (emitAlt cfg' a' fin' tb l).2
+  | [], a, a', fin, fin', tb => by simp [emitAlt]
+  | c :: l, a, a', fin, fin', tb => by
+    simp only [emitAlt]
+    split
+    · exact emitNode_tables cfg cfg' c a a' tb
+    · simp only []
+      rw [emitNode_tables cfg cfg' c (a + 2) (a' + 2) tb]
+      exact emitAlt_tables cfg cfg' l _ _ _ _ _
+end
+
+theorem codeFromTree_tables (cfg cfg' : Cfg) (root : GoNode) : (codeFromTree cfg root).2 = (codeFromTree cfg' root).2 := by
+  simp only [codeFromTree]
+  exact emitNode_tables cfg cfg' root 2 2 _
+
+/-- 1 if the opcode word backtracks -/
+def tcw (op : Nat) : Nat := if Code.backtracks (op % (flagMask + 1)) then 1 else 0
+
+theorem trackCount_cons' (i : Instr) (r : Code) : trackCount (i :: r) = tcw i.op + trackCount r := rfl
+theorem trackCount_nil' : trackCount [] = 0 := rfl
+theorem trackCount_append : ∀ (x y : Code), trackCount (x ++ y) = trackCount x + trackCount y
+  | [], y => by simp [trackCount]
+  | i :: r, y => by simp only [List.cons_append, trackCount_cons', trackCount_append r y]; omega
+
+syntax "tc_norm" : tactic
+macro_rules | `(tactic| tc_norm) => `(tactic|
+  simp only [trackCount_append, trackCount_cons', trackCount_nil', i0_op, i1_op, i2_op, Nat.add_zero, Nat.zero_add] at *)
+
+mutual
+/-- the second writer emits a subset of the backtracking instructions of the first -/
+theorem emitNode_tc_le (caps : Option (List (Int × Int))) (q : List Bool) : ∀ (n : GoNode) (a a' : Nat) (tb tb' : Tables),
+    trackCount (emitNode ⟨caps, some q⟩ a tb n).1 ≤ trackCount (emitNode ⟨caps, none⟩ a' tb' n).1
+  | .empty, a, a', tb, tb' => by simp [emitNode]
+  | .bare t, a, a', tb, tb' => by simp [emitNode]
+  | .char t rtl ci ch, a, a', tb, tb' => by simp [emitNode]
+  | .set rtl ci s, a, a', tb, tb' => by simp only [emitNode]; tc_norm; omega
+  | .multi rtl ci s, a, a', tb, tb' => by simp only [emitNode]; tc_norm; omega
+  | .ref rtl ci m, a, a', tb, tb' => by simp only [emitNode]; tc_norm; omega
+  | .charloop t rtl ci ch m n, a, a', tb, tb' => by simp [emitNode]
+  | .setloop t rtl ci s m n, a, a', tb, tb' => by
+    simp only [emitNode]
+    by_cases h1 : m > 0 <;> by_cases h2 : n > m <;> simp only [h1, h2, if_true, if_false] <;> tc_norm <;> omega
+  | .concat cs, a, a', tb, tb' => by simp only [emitNode]; exact emitList_tc_le caps q cs a a' tb tb'
+  | .alt cs, a, a', tb, tb' => by simp only [emitNode]; exact emitAlt_tc_le caps q cs a a' _ _ tb tb'
+  | .loop lzy m n c, a, a', tb, tb' => by
+    have ih := emitNode_tc_le caps q c (a + loopHeadLen m n) (a' + loopHeadLen m n) tb tb'
+    simp only [emitNode]
+    generalize (emitNode ⟨caps, some q⟩ (a + loopHeadLen m n) tb c).1 = C1 at *
+    generalize (emitNode ⟨caps, none⟩ (a' + loopHeadLen m n) tb' c).1 = C2 at *
+    by_cases hcn : counted m n = true <;> by_cases hm : (m == 0) = true <;>
+      simp only [hcn, hm, if_true, if_false, Bool.false_eq_true, List.append_nil] <;> tc_norm <;> omega
+  | .capture m n c, a, a', tb, tb' => by
+    simp only [emitNode, emitCapture_main, if_true]
+    split
+    · have ih := emitNode_tc_le caps q c (a + 1) (a' + 1) tb tb'
+      tc_norm; omega
+    · have ih := emitNode_tc_le caps q c a (a' + 1) tb tb'
+      tc_norm; omega
+  | .group c, a, a', tb, tb' => by simp only [emitNode]; exact emitNode_tc_le caps q c a a' tb tb'
+  | .poslook c, a, a', tb, tb' => by
+    have ih := emitNode_tc_le caps q c (a + 2) (a' + 2) tb tb'
+    simp only [emitNode]; tc_norm; omega
+  | .neglook c, a, a', tb, tb' => by
+    have ih := emitNode_tc_le caps q c (a + 3) (a' + 3) tb tb'
+    simp only [emitNode]; tc_norm; omega
+  | .atomic c, a, a', tb, tb' => by
+    have ih := emitNode_tc_le caps q c (a + 1) (a' + 1) tb tb'
+    simp only [emitNode]; tc_norm; omega
+  | .backrefcond1 m y, a, a', tb, tb' => by
+    have ih := emitNode_tc_le caps q y (a + 6) (a' + 6) tb tb'
+    simp only [emitNode]; tc_norm; omega
+  | .backrefcond2 m y n, a, a', tb, tb' => by
+    have ih := emitNode_tc_le caps q y (a + 6) (a' + 6) tb tb'
+    have ih2 := emitNode_tc_le caps q n (a + 6 + size ⟨caps, some q⟩ y + 3) (a' + 6 + size ⟨caps, none⟩ y + 3)
+      (emitNode ⟨caps, some q⟩ (a + 6) tb y).2 (emitNode ⟨caps, none⟩ (a' + 6) tb' y).2
+    simp only [emitNode]; tc_norm; omega
+  | .exprcond2 c y, a, a', tb, tb' => by
+    have ih := emitNode_tc_le caps q c (a + 4) (a' + 4) tb tb'
+    have ih2 := emitNode_tc_le caps q y (a + 4 + size ⟨caps, some q⟩ c + 2) (a' + 4 + size ⟨caps, none⟩ c + 2)
+      (emitNode ⟨caps, some q⟩ (a + 4) tb c).2 (emitNode ⟨caps, none⟩ (a' + 4) tb' c).2
+    simp only [emitNode]; tc_norm; omega
+  | .exprcond3 c y n, a, a', tb, tb' => by
+    have ih := emitNode_tc_le caps q c (a + 4) (a' + 4) tb tb'
+    have ih2 := emitNode_tc_le caps q y (a + 4 + size ⟨caps, some q⟩ c + 2) (a' + 4 + size ⟨caps, none⟩ c + 2)
+      (emitNode ⟨caps, some q⟩ (a + 4) tb c).2 (emitNode ⟨caps, none⟩ (a' + 4) tb' c).2
+    have ih3 := emitNode_tc_le caps q n
+      (a + 4 + size ⟨caps, some q⟩ c + 2 + size ⟨caps, some q⟩ y + 4) (a' + 4 + size ⟨caps, none⟩ c + 2 + size ⟨caps, none⟩ y + 4)
+      (emitNode ⟨caps, some q⟩ (a + 4 + size ⟨caps, some q⟩ c + 2) (emitNode ⟨caps, some q⟩ (a + 4) tb c).2 y).2
+      (emitNode ⟨caps, none⟩ (a' + 4 + size ⟨caps, none⟩ c + 2) (emitNode ⟨caps, none⟩ (a' + 4) tb' c).2 y).2
+    simp only [emitNode]; tc_norm; omega
+  | .other t, a, a', tb, tb' => by simp [emitNode]
+theorem emitList_tc_le (caps : Option (List (Int × Int))) (q : List Bool) : ∀ (l : List GoNode) (a a' : Nat) (tb tb' : Tables),
+    trackCount (emitList ⟨caps, some q⟩ a tb l).1 ≤ trackCount (emitList ⟨caps, none⟩ a' tb' l).1
+  | [], a, a', tb, tb' => by simp [emitList]
+  | c :: l, a, a', tb, tb' => by
+    have ih := emitNode_tc_le caps q c a a' tb tb'
+    have ih2 := emitList_tc_le caps q l (a + size ⟨caps, some q⟩ c) (a' + size ⟨caps, none⟩ c)
+      (emitNode ⟨caps, some q⟩ a tb c).2 (emitNode ⟨caps, none⟩ a' tb' c).2
+    simp only [emitList]; tc_norm; omega
+theorem emitAlt_tc_le (caps : Option (List (Int × Int))) (q : List Bool) : ∀ (l : List GoNode) (a a' fin fin' : Nat) (tb tb' : Tables),
+    trackCount (emitAlt ⟨caps, some q⟩ a fin tb l).1 ≤ trackCount (emitAlt ⟨caps, none⟩ a' fin' tb' l).1
+  | [], a, a', fin, fin', tb, tb' => by simp [emitAlt]
+  | c :: l, a, a', fin, fin', tb, tb' => by
+    simp only [emitAlt]
+    split
+    · exact emitNode_tc_le caps q c a a' tb tb'
+    · have ih := emitNode_tc_le caps q c (a + 2) (a' + 2) tb tb'
+      have ih2 := emitAlt_tc_le caps q l (a + 2 + size ⟨caps, some q⟩ c + 2) (a' + 2 + size ⟨caps, none⟩ c + 2) fin fin'
+        (emitNode ⟨caps, some q⟩ (a + 2) tb c).2 (emitNode ⟨caps, none⟩ (a' + 2) tb' c).2
+      tc_norm; omega
+end
+
+theorem codeFromTree_tc_le (caps : Option (List (Int × Int))) (q : List Bool) (root : GoNode) :
+    trackCount (codeFromTree ⟨caps, some q⟩ root).1 ≤ trackCount (codeFromTree ⟨caps, none⟩ root).1 := by
+  have ih := emitNode_tc_le caps q root 2 2 ⟨[], []⟩ ⟨[], []⟩
+  simp only [codeFromTree]; tc_norm; omega
+
+mutual
+/-- `capsOk` reads the configuration only through `mapCapnum`, which ignores the slot table of the second writer -/
+theorem capsOk_quick (caps : Option (List (Int × Int))) (q : Option (List Bool)) (cs : Nat) : ∀ (n : GoNode),
+    capsOk ⟨caps, q⟩ cs n = capsOk ⟨caps, none⟩ cs n
+  | .empty => rfl
+  | .bare _ => rfl
+  | .char _ _ _ _ => rfl
+  | .set _ _ _ => rfl
+  | .multi _ _ _ => rfl
+  | .ref _ _ _ => rfl
+  | .charloop _ _ _ _ _ _ => rfl
+  | .setloop _ _ _ _ _ _ => rfl
+  | .concat l => by simp only [capsOk]; exact capsOkList_quick caps q cs l
+  | .alt l => by simp only [capsOk]; exact capsOkList_quick caps q cs l
+  | .loop _ _ _ c => by simp only [capsOk]; exact capsOk_quick caps q cs c
+  | .capture m n c => by
+    simp only [capsOk, capsOk_quick caps q cs c]
+    rfl
+  | .group c => by simp only [capsOk]; exact capsOk_quick caps q cs c
+  | .poslook c => by simp only [capsOk]; exact capsOk_quick caps q cs c
+  | .neglook c => by simp only [capsOk]; exact capsOk_quick caps q cs c
+  | .atomic c => by simp only [capsOk]; exact capsOk_quick caps q cs c
+  | .backrefcond1 m y => by simp only [capsOk, capsOk_quick caps q cs y]; rfl
+  | .backrefcond2 m y n => by simp only [capsOk, capsOk_quick caps q cs y, capsOk_quick caps q cs n]; rfl
+  | .exprcond2 c y => by simp only [capsOk, capsOk_quick caps q cs c, capsOk_quick caps q cs y]
+  | .exprcond3 c y n => by simp only [capsOk, capsOk_quick caps q cs c, capsOk_quick caps q cs y, capsOk_quick caps q cs n]
+  | .other _ => rfl
+theorem capsOkList_quick (caps : Option (List (Int × Int))) (q : Option (List Bool)) (cs : Nat) : ∀ (l : List GoNode),
+    capsOkList ⟨caps, q⟩ cs l = capsOkList ⟨caps, none⟩ cs l
+  | [] => rfl
+  | c :: l => by simp only [capsOkList, capsOk_quick caps q cs c, capsOkList_quick caps q cs l]
+end
+
+/-- `makeQuickCode`: the bool-only program is the second writer's code with the first program's tables,
+    `TrackCount`, `Capsize` and `Caps` -/
+theorem emitQuick_eq_progOf (ti : TreeInfo) (root : GoNode) (qp : Prog) (hq : emitQuick ti root = some qp) :
+    qp = progOf (codeFromTree (quickCfg ti root) root).1 (codeFromTree (mainCfg ti) root).2.strings.toArray
+      (codeFromTree (mainCfg ti) root).2.sets.length (trackCount (mainCode ti root)) (capsize ti)
+      ((writerCaps ti).2.getD []) ti.rtl := by
+  simp only [emitQuick, quickCodes] at hq
+  split at hq
+  · simp only [Option.map_some, Option.some.injEq] at hq
+    rw [← hq]
+    rfl
+  · simp at hq
+
+theorem emitQuick_vm_wf (ti : TreeInfo) (root : GoNode) (h : treeWf ti root = true) (qp : Prog)
+    (hq : emitQuick ti root = some qp) : qp.wf = true := by
+  simp only [treeWf, Bool.and_eq_true] at h
+  obtain ⟨⟨hok, hcaps⟩, _⟩ := h
+  rw [emitQuick_eq_progOf ti root qp hq]
+  have htb := codeFromTree_tables (quickCfg ti root) (mainCfg ti) root
+  refine codeFromTree_vm_wf (quickCfg ti root) (capsize ti) root hok ?_ _ _ _ _ _ ?_ ?_
+  · rw [← hcaps]; exact capsOk_quick _ _ _ root
+  · rw [htb]; simp
+  · rw [htb]; exact Nat.le_refl _
+
+theorem emitQuick_potOk (hP : PotBound) (ti : TreeInfo) (root : GoNode) (h : treeWf ti root = true) (qp : Prog)
+    (hq : emitQuick ti root = some qp) : VM.potOk qp = true := by
+  simp only [treeWf, Bool.and_eq_true] at h
+  obtain ⟨⟨hok, hcaps⟩, _⟩ := h
+  rw [emitQuick_eq_progOf ti root qp hq]
+  refine codeFromTree_potOk hP (quickCfg ti root) (capsize ti) root hok ?_ _ _ _ _ _ ?_
+  · rw [← hcaps]; exact capsOk_quick _ _ _ root
+  · exact codeFromTree_tc_le _ _ root
+
+/-! ### concrete trees for the non-vacuity examples (codes as `regexp2.MustCompile` produces them) -/
+
+/-- the reduced tree of `(?:ab?)*c` -/
+def tree1 : GoNode :=
+  .capture 0 (-1) (.concat [.loop false 0 maxInt32 (.concat [.char opOne false false 97,
+    .charloop opOneloopatomic false false 98 0 1]), .char opOne false false 99])
+def info1 : TreeInfo := { captop := 1, capnumlist := none, caps := [(0, 0)], rtl := false }
+
+/-- the reduced tree of `(a)|b\1` (the parser wraps the alternation into an atomic group) -/
+def tree2 : GoNode :=
+  .capture 0 (-1) (.atomic (.alt [.capture 1 (-1) (.char opOne false false 97),
+    .concat [.char opOne false false 98, .ref false false 1]]))
+def info2 : TreeInfo := { captop := 2, capnumlist := none, caps := [(0, 0), (1, 0)], rtl := false }
+
+/-- the reduced tree of `(x)y`: slot 1 is never read, so a bool-only program exists -/
+def tree3 : GoNode :=
+  .capture 0 (-1) (.concat [.capture 1 (-1) (.char opOne false false 120), .char opOne false false 121])
+
+example : (emit info1 tree1).codes.toList = [23, 18, 31, 30, 38, 11, 9, 97, 43, 98, 1, 24, 6, 9, 99, 32, 0, -1, 40] ∧
+    (emit info1 tree1).trackcount = 5 ∧ (emit info1 tree1).codes = Lemmas.VM.demo.codes := by decide
+example : (emit info2 tree2).codes.toList =
+    [23, 22, 31, 34, 23, 14, 31, 9, 97, 32, 1, -1, 38, 18, 9, 98, 13, 1, 36, 32, 0, -1, 40] ∧
+    (emit info2 tree2).trackcount = 9 ∧ (emit info2 tree2).capsize = 2 := by decide
+example : (emit info2 tree3).codes.toList = [23, 14, 31, 31, 9, 120, 32, 1, -1, 9, 121, 32, 0, -1, 40] ∧
+    (emitQuick info2 tree3).map (fun q => (q.codes.toList, q.trackcount)) =
+      some ([23, 10, 31, 9, 120, 9, 121, 32, 0, -1, 40], 5) := by decide
+
 end RegexVerif.Lemmas.Compose
